@@ -55,5 +55,6 @@ fn main() {
                 }
             }
         }
+        out.flush().unwrap();
     }
 }
